@@ -695,7 +695,12 @@ impl<T> ExternalError<T> for Result<T, ring_error::Unspecified> {
 #[cfg(feature = "pem")]
 impl<T> ExternalError<T> for Result<T, pem::PemError> {
 	fn _err(self) -> Result<T, Error> {
-		self.map_err(|e| Error::PemError(e.to_string()))
+		self.map_err(|e| match e {
+			// This error carries the offending line of the input, which may well be
+			// a line of a private key: don't repeat it in the error message.
+			pem::PemError::InvalidHeader(_) => Error::PemError("invalid header".to_string()),
+			e => Error::PemError(e.to_string()),
+		})
 	}
 }
 
